@@ -117,6 +117,12 @@ impl GroupB {
             },
             "C17" => {
                 let base = self.stream.at(rng.below(self.stream.len()));
+                if k % 7 == 3 {
+                    // Multi-byte invariant prefix in front of a buildable expression.
+                    let pre = *rng.pick(&["日本/", "é/", "naïve/café/", "金/銀/", "données/", "ǅ/x/", "a/日本語/"]);
+                    let tail = if base.starts_with('/') || base.is_empty() { "**/*.rs".to_string() } else { base.clone() };
+                    return format!("{}{}", pre, tail);
+                }
                 match k % 3 {
                     0 => multibyte_fault(&mut rng, &base),
                     1 => corrupt(&mut rng, &base),
@@ -237,8 +243,8 @@ fn text_at(rng: &mut Rng, k: usize) -> String {
         },
         _ => {
             // Near the size limit.
-            let n = *rng.pick(&[1000usize, 30000, 65000, 65534, 65535]);
-            let unit = rng.pick_str(&["a", "*", "ab/", "金"]);
+            let n = *rng.pick(&[1000usize, 30000, 44000, 65000, 65530, 65533, 65534, 65535]);
+            let unit = rng.pick_str(&["a", "*", "ab/", "金", "İ", "ΐ", "ǰ", "İİİ(1)/", "ß"]);
             let mut s = String::new();
             while s.len() + unit.len() <= n {
                 s.push_str(unit);
@@ -343,7 +349,31 @@ fn looks_oversized(expr: &str) -> bool {
     expr.len() > 2000 || product_of_numbers(expr).saturating_mul(expr.len() as u128) >= 3000 || max_nesting(expr) >= 60
 }
 
+/// Combinator constructions that do not depend on an expression (empty and nested empty inputs).
+fn c05_combinator_shapes(ctx: &Ctx, rpt: &mut Report) {
+    let e = "<combinator shapes>";
+    let empty: Vec<&str> = Vec::new();
+    let _ = call(rpt, ctx, e, "any([])", || wax::any(empty.clone()).map(|a| (a.is_match(""), a.is_match("a"), when_str(a.is_exhaustive()), depth_str(&a.depth()))).ok());
+    let _ = call(rpt, ctx, e, "any([any([])])", || wax::any([wax::any(empty.clone())]).map(|a| (a.is_match(""), when_str(a.has_root()))).ok());
+    let _ = call(rpt, ctx, e, "any([any([]), any([a])])", || wax::any([wax::any(empty.clone()), wax::any(["a"])]).map(|a| (a.is_match("a"), text_str(&a.text()))).ok());
+    let _ = call(rpt, ctx, e, "any([built any([])])", || {
+        let inner = wax::any(empty.clone()).ok()?;
+        wax::any([inner]).map(|a| a.is_match("")).ok()
+    });
+    let _ = call(rpt, ctx, e, "any([\"\"])", || wax::any([""]).map(|a| (a.is_match(""), when_str(a.is_exhaustive()))).ok());
+    let _ = call(rpt, ctx, e, "any([**, \"\", a/**])", || wax::any(["**/b", "", "a/**"]).map(|a| when_str(a.is_exhaustive())).ok());
+    let _ = call(rpt, ctx, e, "not(any([]))", || {
+        use wax::walk::{FileIterator, PathExt};
+        std::path::Path::new("/nonexistent-waxmon").walk().not(wax::any(empty.clone())).is_ok()
+    });
+    let _ = call(rpt, ctx, e, "Glob::empty/tree", || (Glob::empty().is_empty(), Glob::tree().to_string(), Glob::empty().into_owned().is_empty(), Glob::empty().partition().1.is_none()));
+    rpt.bucket("combinator-shapes-exercised");
+}
+
 fn c05(expr: &str, idx: usize, ctx: &Ctx, rpt: &mut Report) {
+    if idx % 257 == 0 {
+        c05_combinator_shapes(ctx, rpt);
+    }
     let mut rng = Rng::derive(ctx.seed, "C05", idx as u64);
     rpt.bucket(if max_nesting(expr) >= 100 { "input:deep-nesting" } else { "input:shallow" });
     if max_number(expr) >= (1u128 << 32) {
@@ -603,7 +633,7 @@ fn slice_ok(expr: &str, span: (usize, usize)) -> bool {
         .is_some()
 }
 
-fn check_capture_spans(expr: &str, glob: &Glob, what: &str, ctx: &Ctx, rpt: &mut Report, flags_before_tree_after_partition: bool) {
+pub fn check_capture_spans(expr: &str, glob: &Glob, what: &str, ctx: &Ctx, rpt: &mut Report, flags_before_tree_after_partition: bool) {
     let spans: Vec<(usize, (usize, usize))> = match guarded(|| glob.captures().map(|c| (c.index(), c.span())).collect()) {
         Some(s) => s,
         None => return,
@@ -712,6 +742,28 @@ fn c17(expr: &str, ctx: &Ctx, rpt: &mut Report) {
             if guarded(|| glob.captures().count()).unwrap_or(0) > 0 {
                 rpt.nontrivial.insert(hash_str(expr));
             }
+            // The owning routes: spans of a partitioned owned glob index its own expression text.
+            for (route, owned) in [
+                ("from_str", guarded(|| expr.parse::<Glob<'static>>().ok()).flatten()),
+                ("into_owned", guarded(|| glob.clone().into_owned())),
+            ] {
+                if let Some(o) = owned {
+                    check_capture_spans(expr, &o, route, ctx, rpt, false);
+                    if let Some((prefix, Some(post))) = guarded(|| o.partition()) {
+                        let post_expr = post.to_string();
+                        let flags_before_tree = parse::parse(expr).map_or(false, |a| {
+                            a.seq.toks.iter().any(|t| matches!(t.node, Node::Tree { lead: true, .. }) && t.span.0 != t.core.0)
+                        });
+                        check_capture_spans(&post_expr, &post, route, ctx, rpt, flags_before_tree);
+                        if !prefix.as_os_str().is_empty() {
+                            rpt.bucket("owned-glob-partitioned-with-nonempty-prefix");
+                            if !prefix.to_string_lossy().is_ascii() {
+                                rpt.bucket("owned-glob-partitioned-with-non-ascii-prefix");
+                            }
+                        }
+                    }
+                }
+            }
         },
     }
 }
@@ -721,7 +773,7 @@ fn c17(expr: &str, ctx: &Ctx, rpt: &mut Report) {
 // ------------------------------------------------------------------------------------------
 
 fn c18_text(s: &str, idx: usize, ctx: &Ctx, rpt: &mut Report) {
-    if s.contains('\\') || s.contains("//") || s.len() >= 0xFFF0 {
+    if s.contains('\\') || s.contains("//") || s.len() >= 0x10000 {
         rpt.bucket("text:out-of-domain");
         return;
     }
